@@ -201,7 +201,7 @@ Fixpoint shapes_eqb (l1 l2 : list shape) : bool :=
 Definition paren_count_mismatch (s : str) : bool :=
   negb (Nat.eqb (count ch_open s) (count ch_close s)).
 
-(* _parentheses_properly_nested (added by the fix: commit): no ')' before its '(' *)
+(* _parentheses_properly_nested (added by fix commit 5df7886): no ')' before its '(' *)
 Fixpoint nested_from (d : nat) (s : str) : bool :=
   match s with
   | [] => true
